@@ -7,7 +7,7 @@ VARIABLES asked, dumped
 EnvInt(name, default) == IF name \in DOMAIN IOEnv THEN atoi(IOEnv[name]) ELSE default
 Depth == EnvInt("VERIF_DEPTH", 2)
 MCClasses == {"unit", "prefix", "dimension"}
-MCKeys == [c \in MCClasses |-> IF c = "unit" THEN {"u1", "u2", "sq1"} ELSE IF c = "prefix" THEN {"p7", "p8"} ELSE {"d1", "d2", "d3"}]
+MCKeys == [c \in MCClasses |-> IF c = "unit" THEN {"u1", "u2", "sq1"} ELSE IF c = "prefix" THEN {"p7", "p8", "p0"} ELSE {"d1", "d2", "d3"}]
 \* VERIF_DIMS = 1: the dimension registry on its own (Dimension.define creates a fundamental dimension d2 / d3,
 \* Dimension.derive names a dimension d1 that came about anonymously by arithmetic, Dimension.named looks up)
 DimMode == EnvInt("VERIF_DIMS", 0)
@@ -24,7 +24,8 @@ Step ==
   \/ "u1" \in known["unit"] /\ "sq1" \notin known["unit"] /\ Anon("unit", "sq1")
   \* a prefix is declared by constructing it with a name and/or symbol; it has one name slot, so the model declares
   \* each at most once (possibly after it came about anonymously)
-  \/ \E k \in {"p7", "p8"}, n \in MCNameTok, s \in MCSymTok :
+  \* ("p0" is a prefix with exponent 0: the identity prefix, which always exists - naming IT is a declaration like any other)
+  \/ \E k \in {"p7", "p8", "p0"}, n \in MCNameTok, s \in MCSymTok :
         (n # "" \/ s # "") /\ NamesOf("prefix", k) = <<>> /\ SymsOf("prefix", k) = <<>> /\ Declare("named", "prefix", k, n, s, FALSE)
   \/ \E k \in {"p7", "p8"} : k \notin known["prefix"] /\ Anon("prefix", k)
   \/ \E x \in {"sa", "na"} : <<"unit", x>> \notin asked /\ Cardinality(asked) < 2 /\ Lookup("unit", x)
